@@ -414,6 +414,23 @@ theorem code_merge_keeps_new_ids_first (old : List Desc) (new : List (Desc × Op
     exact ⟨hk, rfl, rfl, od, hod, hmf, ha, rfl⟩
   · cases he
 
+/-- the code has the one-scan grace (fix b5388a7), as the extractor reads it from `/repo` now -/
+theorem code_keeps_missed_one_scan : Generated.C17.mergeKeepsMissedOneScan = true := by decide
+
+/-- **`missing_from_one_scan_keeps_offset`** (the code as it is now, fix b5388a7 — finding F61 repaired). A known file the
+scan does not find (renamed away for a moment, a failing `os.Stat`) keeps its descriptor, flagged, with its offset; when
+the next scan finds it again — it only grew — it is the same descriptor with the same offset (`missed_once_keeps_offset`):
+nothing is sent again. Missing from the next scan too, it is forgotten (a file gone for two scans is gone). -/
+theorem missing_from_one_scan_keeps_offset (od : Desc) (hm : od.missed = false) :
+    codeMerge [od] [] = [({ od with missed := true }, true)] ∧
+    codeMerge [{ od with missed := true }] [] = [] := by
+  have hf : Generated.C17.mergeKeepsMissedOneScan = true := by decide
+  simp only [codeMerge, hf]
+  exact ⟨(missed_once_keeps_offset _ od hm).1, (missed_once_keeps_offset _ od hm).2.1⟩
+
+/-- offset 17 survives one missed scan -/
+example : codeMerge [⟨[105, 100], 17, 17, false⟩] [] = [(⟨[105, 100], 17, 17, true⟩, true)] := by decide
+
 /-- **`cex_replaced_file_regrown_keeps_offset`** (finding F64) same path and inode, all 26 old bytes shipped, the file
 is replaced in place and has 55 bytes at the next scan: the id and the sizes cannot tell, the old descriptor — offset
 26 — is kept, the first 26 bytes of the new content are never read. (`truncated_file_read_from_beginning` needs the
